@@ -304,7 +304,9 @@ func importNud(p *parser, t *token) *token {
 	if p.Token.Symbol == "(" {
 		p.Advance("(")
 		for p.Token.Symbol != ")" {
-			if p.Token.Symbol == "(name)" {
+			if p.Token.Symbol == ";" {
+				p.Advance(";")
+			} else if p.Token.Symbol == "(name)" {
 				t.Append(p.Advance("(name)"))
 				t.Append(p.Advance("(string)"))
 			} else {
@@ -375,12 +377,12 @@ func getType(p *parser) *token {
 	case "struct":
 		p.Advance("{")
 		for p.Token.Symbol != "}" {
+			if p.Token.Symbol == ";" {
+				p.Advance(";")
+				continue
+			}
 			var names []*token
 			for {
-				if p.Token.Symbol == ";" { // HACK: for tests
-					p.Advance(";")
-					continue
-				}
 				names = append(names, p.Advance("(name)"))
 				if p.Token.Symbol != "," {
 					break
